@@ -111,10 +111,10 @@ prop("C16", "other", _GENERIC + "Proved: the lifetime budget (_compute_timeout) 
 prop("C17", "other", _GENERIC + "Discharged: the mechanical lock-discipline obligations of the cache classes (linearizability by one "
      "lock hold per public method); on the real functions, in a symbolic heap: Cache._maybe_clean/get/put/flush (never an answer "
      "at or after its expiration, the stored unexpired answer is found, exactly one counter moves, only expired entries disappear), "
-     "LRUCacheNode.link_after/unlink (all aliasing cases), LRUCache.get and, in the thorough tier, LRUCache.get#ring and "
-     "LRUCache.put with a ghost recency order (bound never exceeded, eviction strictly from the least-recently-used end, hit moves "
-     "to the front, ring and dict stay in step, no KeyError), plus the ring lemma for unlink. set_max_size/flush of the LRU, "
-     "whole histories and thread schedules are bounded.",
+     "LRUCacheNode.link_after/unlink (all aliasing cases), LRUCache.__init__ (the invariant's base case), LRUCache.get and, in the "
+     "thorough tier, LRUCache.get#ring, put, set_max_size and flush(key) with a ghost recency order (bound never exceeded, eviction "
+     "strictly from the least-recently-used end and only as far as needed, hit moves to the front, ring and dict stay in step, no "
+     "KeyError), plus the ring lemma for unlink. flush() of everything, whole histories and thread schedules are bounded.",
      assumptions=["A-key: cache keys are abstracted to integers (a key is only hashed and compared)",
                   "A-float: clock readings are reals and never decrease"])
 prop("C18", "other", _GENERIC + "Proved: stream framing loops _net_read, _net_write and the async _read_exactly against an assumed "
